@@ -421,3 +421,61 @@ func keys(m map[string]bool) []string {
 
 // keyExpr renders a ring-key expression structurally; loop counters and locals print by name.
 func keyExpr(v ssa.Value) string { return pathOf(v) }
+
+func init() {
+	register(&Rule{ID: "C14.R8", Props: []string{"C14", "C13"}, Min: 3, Needs: NeedMain,
+		Doc: "selectors follow the weight mode of the current set: a selector's weight mode is fixed when it is constructed, and the endpoint manager recomputes its weightType on every refresh — so in the function that assigns weightType every selector it installs (round robin, consistent hash, mod hash) is, on every path, a selector constructed there by New(enableWeight(), ...) after the last assignment of weightType (never a selector kept from an earlier refresh): otherwise the routing depends on the history of refreshes and two clients with the same set disagree",
+		Run: func(r *R) {
+			sp := r.w.Pkg("tars")
+			if sp == nil {
+				r.AnchorMissing("package tars")
+				return
+			}
+			for _, fn := range r.w.Funcs(sp) {
+				var wstores []ssa.Instruction
+				eachInstr(fn, func(in ssa.Instruction) {
+					if st, ok := in.(*ssa.Store); ok {
+						if fv, base, ok := fieldAddrOf(st.Addr); ok && fv.Name() == "weightType" && strings.HasSuffix(typeID(base.Type()), "tars.endpointManager") {
+							wstores = append(wstores, in)
+						}
+					}
+				})
+				if len(wstores) == 0 {
+					continue
+				}
+				eachInstr(fn, func(in ssa.Instruction) {
+					st, ok := in.(*ssa.Store)
+					if !ok {
+						return
+					}
+					fv, base, ok := fieldAddrOf(st.Addr)
+					if !ok || !strings.HasSuffix(typeID(base.Type()), "tars.endpointManager") {
+						return
+					}
+					pt, isPtr := fv.Type().Underlying().(*types.Pointer)
+					if !isPtr || !strings.Contains(typeID(pt), "/tars/selector/") {
+						return
+					}
+					bad := ""
+					for _, leaf := range phiLeaves(st.Val) {
+						c, isCall := leaf.(*ssa.Call)
+						if !isCall || c.Call.StaticCallee() == nil || c.Call.StaticCallee().Name() != "New" || len(c.Call.Args) == 0 {
+							bad = "the installed selector can be " + pathOf(leaf) + ", which is not constructed by this refresh"
+							continue
+						}
+						mode, isMode := c.Call.Args[0].(*ssa.Call)
+						if !isMode || mode.Call.StaticCallee() == nil || mode.Call.StaticCallee().Name() != "enableWeight" {
+							bad = "the selector is constructed with weight mode " + pathOf(c.Call.Args[0]) + ", not enableWeight() of the refreshed set"
+							continue
+						}
+						for _, ws := range wstores {
+							if reaches(mode, ws) {
+								bad = "weightType is assigned after enableWeight() was evaluated for the selector"
+							}
+						}
+					}
+					r.Check(bad == "", fname(fn), "selector "+fv.Name()+" rebuilt with the current weight mode", in.Pos(), "= New(enableWeight(), ...) evaluated after weightType is set", "%s: a client that lived through a change of the weight mode routes differently from one that starts with the same set", bad)
+				})
+			}
+		}})
+}
